@@ -298,7 +298,7 @@ def ob_do_rpc(report, prop):
             wq = [i for i, e in enumerate(evs) if e.kind == 'write-request']
             rp = [i for i, e in enumerate(evs) if e.kind == 'read-response']
             fi = [i for i, e in enumerate(evs) if e.kind == 'finish']
-            if len(ob_) != 1 or vname(ob_[0].args[0]) != f'gen.0.*.{pf.index("connection")}':
+            if len(ob_) != 1 or vname(ob_[0].args[0]) != f'{e2.upvar_base(ex, fn)}.{pf.index("connection")}':
                 return viol(prop, ob, [ex], 'an RPC does not open exactly one fresh bidirectional stream on the peer\'s connection', 'rpc-stream', path_summary(r), len(res))
             if len(wq) != 1 or len(rp) != 1 or len(fi) != 1 or not (wq[0] < fi[0] < rp[0]):
                 return viol(prop, ob, [ex], 'a successful RPC is not: write request, finish the send half, read response - each exactly once, in that order', 'rpc-order', path_summary(r), len(res))
@@ -306,6 +306,9 @@ def ob_do_rpc(report, prop):
             wio = w.args[0].get_ov('io') if isinstance(w.args[0], Sym) else None
             rio = rd.args[0].get_ov('io') if isinstance(rd.args[0], Sym) else None
             pair = 'poll(open_bi_future)#1@Ok.0'
+            if wio is None or rio is None:
+                return ob.done([ex], 'inconclusive', f'the framed streams handed to write_request/read_response ({vrepr(w.args[0])[:60]}, {vrepr(rd.args[0])[:60]}) are not built by '
+                               'FramedWrite::new/FramedRead::new directly over the stream halves: wrapper this obligation cannot follow', paths=len(res))
             if not (wio is not None and rio is not None and vname(wio) == pair + '.0' and vname(rio) == pair + '.1'):
                 return viol(prop, ob, [ex], f'request and response do not travel on the two halves of the stream opened for this RPC ({vrepr(wio)}, {vrepr(rio)})', 'rpc-halves', path_summary(r), len(res))
             if vname(w.args[1]) != 'gen.1':
@@ -314,7 +317,7 @@ def ob_do_rpc(report, prop):
             if not vname(resp).startswith('poll(read_response_future)#1@Ok.0'):
                 return viol(prop, ob, [ex], f'the response returned is {vrepr(resp)[:80]}, not the one read from this stream', 'rpc-response', path_summary(r), len(res))
             ext = [e for e in evs[rp[0]:] if e.kind == 'ext-insert']
-            if not any(isinstance(e.args[0], z3.ExprRef) and str(e.args[0]) == f'pid(gen.0.*.{pf.index("connection")})' for e in ext):
+            if not any(isinstance(e.args[0], z3.ExprRef) and str(e.args[0]) == f'pid({e2.upvar_base(ex, fn)}.{pf.index("connection")})' for e in ext):
                 return viol(prop, ob, [ex], 'the response is not tagged with the authenticated peer id of the connection it came from', 'rpc-peer-id-ext', path_summary(r), len(res))
         if not n_ok:
             return ob.done([ex], 'inconclusive', 'no successful path', paths=len(res))
